@@ -3,6 +3,7 @@
 -/
 import Perp.Props.SatFlows
 import Perp.Props.C15Band
+import Perp.Props.C15Requote
 
 namespace Perp.Props.SatC15
 open Perp Perp.World Perp.Engine Perp.Spec Perp.Spec.W Perp.Props.ModelStep
@@ -154,6 +155,118 @@ theorem close_core (w w' : World) (env : Env) (s : Nat) (f : Funds) (v l : Nat)
     | true => rw [hi] at this; cases this
 
 
+/-! ### the size of a partial close -/
+
+/-- a partial close in the regular regime of the curve (both reserves hold a whole unit, spot price at
+    least 1): the sign of the position is kept, the base amount closed is at most the configured fraction
+    `want = ⌊|size|·plr/D⌋`, and falls short of it by at most `⌊base'/quote'⌋ + 2` (reserves after the
+    trade) — provided that post-trade exchange rate stays below twice the post-trade quote reserve -/
+theorem partial_core (w w' : World) (env : Env) (s : Nat) (f : Funds) (v l : Nat)
+    (h : applyTx w env s f (.engine (.closePosition v l)) = .ok w')
+    (hcr : MirrorP.CurveRegF w.vamm?)
+    (x y : Vamm.V) (hxv : w.vamm? v = some x) (hyv : w'.vamm? v = some y)
+    (hf : x.cfg.fluct ≠ 0) (hplr : w.engine.cfg.plr < w.engine.cfg.decimals)
+    (hhp : W.hasPos w' v s = true)
+    (hrb : y.st.base / y.st.quote + 2 ≤ 2 * y.st.quote) :
+    (readPosition w.engine v s).size.toInt * (readPosition w'.engine v s).size.toInt > 0
+    ∧ (readPosition w'.engine v s).size.toInt.natAbs ≤ (readPosition w.engine v s).size.toInt.natAbs
+    ∧ (readPosition w.engine v s).size.toInt.natAbs - (readPosition w'.engine v s).size.toInt.natAbs
+        ≤ (readPosition w.engine v s).size.toInt.natAbs * w.engine.cfg.plr / w.engine.cfg.decimals
+    ∧ (readPosition w.engine v s).size.toInt.natAbs * w.engine.cfg.plr / w.engine.cfg.decimals
+        - ((readPosition w.engine v s).size.toInt.natAbs - (readPosition w'.engine v s).size.toInt.natAbs)
+        ≤ y.st.base / y.st.quote + 2 := by
+  obtain ⟨w1, e1, x0, sw, msgs, over, hst, _, hxv0, hnz, pv, pt, hex, hsw, sv, st, hpos, hcfg, _, _, hover, hcase⟩ :=
+    close_flow w w' env s f v l h
+  rw [hxv] at hxv0
+  cases hxv0
+  obtain ⟨c1, c2, c3⟩ := hcr v x hxv
+  have c3 := c3 hf
+  rcases hcase with ⟨hno, _, x', qo, w2, e3, subs3, hswap, _, _, _, hrep, _, he3, hv', _⟩
+      | ⟨hyes, hside, N, x', bo, w2, e3, subs3, hswap, hrep, _, he3, hv', hmsg⟩
+  · exfalso
+    have hk := EngineMoney.getPosition_key env e1 sw.vamm sw.trader sw.side
+    obtain ⟨hp', _⟩ := MirrorP.closePositionReply_eff _ _ _ _ sw hsw _ hrep
+    have := hasPos_remove e1 e3 w' _ v s he3 hp' (hk.1.trans sv) (hk.2.trans st)
+    rw [this] at hhp
+    cases hhp
+  · rw [hyv] at hv'
+    cases hv'
+    -- the quote notional is the vAMM's quote for `|size|·plr/D` base
+    obtain ⟨_, _, _, tmp', _, _, _, hc⟩ := MirrorP.closePosition_inv _ _ _ _ _ _ _ hex
+    dsimp only at hc
+    have hq : ∃ pa, pa = (readPosition w.engine v s).size.value * w.engine.cfg.plr / w.engine.cfg.decimals
+        ∧ Vamm.queryOutputAmount x
+            (if Integer.gt (readPosition w.engine v s).size Integer.zero then .addToAmm else .removeFromAmm) pa
+            = .ok N := by
+      rcases hc with ⟨_, h2⟩ | ⟨_, xx, pa, N', over', h2, hcm, hcd, hout, _, _⟩
+      · rw [hmsg] at h2
+        injection h2 with h2
+        injection h2 with h2
+        cases h2
+      · rw [hmsg] at h2
+        have hNN : N = N' := by
+          injection h2 with h2
+          injection h2 with h2
+          injection h2
+        subst hNN
+        simp only [cmul_ok] at hcm
+        obtain ⟨_, rfl⟩ := hcm
+        simp only [cdiv_ok] at hcd
+        obtain ⟨_, rfl⟩ := hcd
+        obtain ⟨x1, hx1, hq1⟩ := MirrorP.q_outputAmount _ _ _ _ _ hout
+        rw [hst.vamm? v, hxv] at hx1
+        cases hx1
+        exact ⟨_, rfl, hq1⟩
+    obtain ⟨pa, hpa, hqo⟩ := hq
+    -- the swap
+    obtain ⟨b, hqi, hur, ho, _⟩ := C17.swapInput_inv _ _ _ _ _ _ _ _ _ hswap
+    injection ho with _ _ hbo
+    subst hbo
+    -- the stored size
+    have hk := EngineMoney.getPosition_key env e1 sw.vamm sw.trader sw.side
+    obtain ⟨⟨p', hp', pv', pt', psz, _⟩, _⟩ := MirrorP.partialClosePositionReply_eff _ _ _ _ _ sw hsw _ hrep
+    dsimp only at hp' pv' pt' psz
+    have hread : readPosition w'.engine v s = p' := by
+      rw [he3]; exact read_of_store e1 e3 p' v s hp' ((pv'.trans hk.1).trans sv) ((pt'.trans hk.2).trans st)
+    have hrd : readPosition e1 sw.vamm sw.trader = readPosition w.engine v s := by
+      rw [sv, st]; exact WorldInv.rp_same v s hpos
+    rw [MirrorP.getPosition_size, hrd, hside, MirrorP.signedOutput_toInt] at psz
+    rw [hread]
+    have hv := C19.toInt_natAbs (readPosition w.engine v s).size
+    rw [hv]
+    have hpalt : pa < (readPosition w.engine v s).size.value := by
+      rw [hpa]
+      apply Nat.div_lt_of_lt_mul
+      rw [Nat.mul_comm w.engine.cfg.decimals]
+      exact Nat.mul_lt_mul_of_pos_left hplr (Nat.pos_of_ne_zero hnz)
+    unfold Vamm.queryOutputAmount at hqo
+    unfold Vamm.queryInputAmount at hqi
+    unfold positionToSide at hqi hur psz
+    by_cases hg : Integer.gt (readPosition w.engine v s).size Integer.zero = true
+    · rw [if_pos hg] at hqo hqi hur psz
+      have ha := (MirrorP.gt_zero_iff _).1 hg
+      simp only [sideToDirection] at hqi hur psz
+      rw [psz]
+      obtain ⟨hle, hdev⟩ := C15Requote.long_requote _ _ _ _ _ _ c1 c2 hqo hqi
+      obtain ⟨u1, u2, u3⟩ := C17.updateReserve_remove _ _ _ _ _ _ hur
+      rw [u1, u3] at hrb ⊢
+      have hdev := hdev hrb
+      rw [← hpa]
+      refine ⟨Int.mul_pos ha (by omega), by omega, by omega, by omega⟩
+    · rw [if_neg hg] at hqo hqi hur psz
+      have ha : (readPosition w.engine v s).size.toInt < 0 := by
+        have : ¬ 0 < (readPosition w.engine v s).size.toInt := fun hh => hg ((MirrorP.gt_zero_iff _).2 hh)
+        omega
+      simp only [sideToDirection] at hqi hur psz
+      rw [psz]
+      have hex' := C15Requote.short_requote _ _ _ _ _ _ c1 c3 hqo hqi
+      rw [← hpa]
+      refine ⟨Int.mul_pos_of_neg_of_neg ha (by omega), by omega, by omega, ?_⟩
+      have : (readPosition w.engine v s).size.value
+          - ((readPosition w.engine v s).size.toInt + (bo : Int)).natAbs = bo := by omega
+      rw [this, hex', Nat.sub_self]
+      exact Nat.zero_le _
+
 /-! ### the check -/
 
 theorem ite_mem_pair {c : Prop} [Decidable c] (a b : String) : (if c then a else b) ∈ [a, b] := by
@@ -171,9 +284,11 @@ theorem mem_chk {c : Bool} {tag t : String} (h : t ∈ W.chk c tag) : t = tag :=
 /-- **sub-case hypothesis of `sat_C15`** (rule 3): the transaction is not a ClosePosition that the vAMM
     reports as over the fluctuation limit, i.e. the model does not take the partial-close path.  On that
     path the closed fraction is priced in quote and re-quoted in base, and differs from the configured
-    fraction by the re-quote rounding (`…[within-requote-rounding]`), which for positions that are large
-    relative to the base reserve exceeds even the specification's rounding bound (`…[gross]`,
-    `SatE.c15_gross_witness`). -/
+    fraction by the re-quote rounding (`…[within-requote-rounding]`, `SatE.c15_within_witness`,
+    `SatE.c15_large_position_witness`); only for positions so large relative to the base reserve that the
+    close drains the quote reserve to a few raw units does the deviation exceed the specification's
+    rounding bound (`…[gross]`, `SatE.c15_gross_witness`; excluded by `PostRateBounded`,
+    `C15_tags_within`). -/
 def NoPartialClose (w : World) (env : Env) (s : Nat) (tx : Tx) : Prop :=
   ∀ v l, tx = .engine (.closePosition v l) →
     ({ w with env := env } : World).q.isOverFluct v
@@ -280,6 +395,68 @@ theorem check_close_ok (w w' : World) (env : Env) (s : Nat) (f : Funds) (v l : N
               rw [(hfin _ _).2 tag ht]
               exact ite_mem_pair _ _
 
+theorem within_cond (ab : Int) (A A' want M r : Nat) (k1 : ab > 0) (k2 : A' ≤ A) (k3 : A - A' ≤ want)
+    (k4 : want - (A - A') ≤ r + 2) (hm : r ≤ M) :
+    (decide (ab > 0) && decide ((if A - A' ≥ want then A - A' - want else want - (A - A')) ≤ M + 2)) = true := by
+  simp only [Bool.and_eq_true, decide_eq_true_eq]
+  refine ⟨k1, ?_⟩
+  split <;> omega
+
+/-- a successful ClosePosition in the regular regime whose post-trade exchange rate is bounded: the only tag
+    that can occur is the re-quote rounding of a partial close -/
+theorem check_close_within (w w' : World) (env : Env) (s : Nat) (f : Funds) (v l : Nat)
+    (h : applyTx w env s f (.engine (.closePosition v l)) = .ok w') (hsd : SignDirE w.engine)
+    (hcr : MirrorP.CurveRegF w.vamm?)
+    (hrb : ∀ y, w'.vamm? v = some y → y.st.base / y.st.quote + 2 ≤ 2 * y.st.quote) :
+    ∀ tag ∈ Spec.C15.check (okStep w w' env s f (.engine (.closePosition v l))),
+        tag ∈ ["partial-close-not-the-configured-fraction[within-requote-rounding]"] := by
+  simp only [Spec.C15.check, W.engineMsg, okStep, W.pos, Bool.not_true, Bool.false_eq_true, ↓reduceIte]
+  cases hxv : w.vamm? v with
+  | none => exact fun tag ht => by cases ht
+  | some x =>
+    cases hyv : w'.vamm? v with
+    | none => exact fun tag ht => by cases ht
+    | some y =>
+      simp only []
+      by_cases hf : x.cfg.fluct = 0
+      · have hf' : (x.cfg.fluct == 0) = true := by simp [hf]
+        simp only [hf', Bool.true_or, ↓reduceIte]
+        exact fun tag ht => by cases ht
+      by_cases hp : w.engine.cfg.plr ≥ w.engine.cfg.decimals
+      · simp only [hp, decide_true, Bool.or_true, ↓reduceIte]
+        exact fun tag ht => by cases ht
+      · have hf' : (x.cfg.fluct == 0) = false := by simpa using hf
+        simp only [hf', hp, decide_false, Bool.or_false, Bool.false_eq_true, ↓reduceIte]
+        have hc' : ¬ x.cfg.fluct = 0 ∧ w.engine.cfg.plr < w.engine.cfg.decimals := ⟨hf, by omega⟩
+        cases hb : band x.cfg.decimals x.cfg.fluct x.st.snaps env.height with
+        | none => exact fun tag ht => by cases ht
+        | some bd =>
+          simp only []
+          rcases close_core w w' env s f v l h hsd x y hxv hyv hc'.1 hc'.2 bd hb with ⟨hp, hi, _⟩ | ⟨hp, hz, hov⟩
+          · simp only [hp, Bool.not_false, ↓reduceIte]
+            rw [chk_true _ _ hi]
+            exact fun tag ht => by cases ht
+          · simp only [hp, Bool.not_true, Bool.false_eq_true, ↓reduceIte]
+            obtain ⟨k1, k2, k3, k4⟩ := partial_core w w' env s f v l h hcr x y hxv hyv hc'.1 hc'.2 hp (hrb y hyv)
+            have hm : y.st.base / y.st.quote ≤ max (x.st.base / x.st.quote) (y.st.base / y.st.quote) :=
+              Nat.le_max_right _ _
+            have hfin : ∀ (c : Bool) (t : String), ∀ tag ∈ W.chk c t, tag = t := fun c t tag ht => mem_chk ht
+            cases hsw : Vamm.swapOutput x env ENGINE (readPosition w.engine v s).direction
+                (readPosition w.engine v s).size.value 0 with
+            | error e =>
+              simp only [List.append_nil]
+              intro tag ht
+              rw [hfin _ _ tag ht]
+              refine List.mem_singleton.2 ?_
+              exact if_pos (within_cond _ _ _ _ _ _ k1 k2 k3 k4 hm)
+            | ok r =>
+              obtain ⟨z, o⟩ := r
+              simp only []
+              rw [chk_true (!inside x.cfg.decimals bd z.st.quote z.st.base) _ (by rw [hz z o hsw]; rfl), List.append_nil]
+              intro tag ht
+              rw [hfin _ _ tag ht]
+              refine List.mem_singleton.2 ?_
+              exact if_pos (within_cond _ _ _ _ _ _ k1 k2 k3 k4 hm)
 theorem check_other (st : Step) (h1 : ∀ v side m l b, st.tx ≠ .engine (.openPosition v side m l b))
     (h2 : ∀ v l, st.tx ≠ .engine (.closePosition v l)) : Spec.C15.check st = [] := by
   unfold Spec.C15.check W.engineMsg
@@ -333,6 +510,62 @@ theorem C15_tags (w : World) (env : Env) (s : Nat) (f : Funds) (tx : Tx) (hsd : 
             refine ⟨v, l, ?_⟩
             unfold modelStep at hh
             split at hh <;> exact hh)) _
+
+/-- **sub-case hypothesis of `C15_tags_within`**: after a successful ClosePosition the exchange rate of the
+    vAMM traded on — raw base units per raw quote unit, rounded down — is below twice its quote reserve.
+    It holds as soon as the post-trade spot price is at least 1 and the quote reserve holds two raw units
+    (`postRate_of_price_ge_one`), i.e. in the regular regime of the curve (`Mirror.CurveRegular`) after the
+    trade.  Without it the `[gross]` tag does occur although `SignDir`, `CurveRegular` and the mirror
+    property hold before the trade: a long that is huge relative to the base reserve drains the quote reserve
+    to a few raw units, where one quote unit is worth more base than the specification's rounding bound
+    allows for (`SatE.c15_gross_witness`). -/
+def PostRateBounded (w : World) (env : Env) (s : Nat) (f : Funds) (tx : Tx) : Prop :=
+  ∀ v l w' y, tx = .engine (.closePosition v l) → applyTx w env s f tx = .ok w' → w'.vamm? v = some y →
+    y.st.base / y.st.quote + 2 ≤ 2 * y.st.quote
+
+theorem postRate_of_price_ge_one (b q : Nat) (h1 : b ≤ q) (h2 : 2 ≤ q) : b / q + 2 ≤ 2 * q := by
+  have : b / q ≤ 1 := Nat.div_le_of_le_mul (by omega)
+  omega
+
+/-- **C15, sharper general form**: under the sign/direction invariant, in the regular regime of the curve
+    and with a bounded post-trade exchange rate, the `[gross]` tag never occurs — the only clause that can
+    fail is the size of a partial close, by the re-quote rounding: the closed amount is at most the
+    configured fraction `⌊|size|·plr/D⌋` and falls short of it by at most `⌊base'/quote'⌋ + 2`
+    (`partial_core`; for a short the closed amount is exactly the configured fraction) -/
+theorem C15_tags_within (w : World) (env : Env) (s : Nat) (f : Funds) (tx : Tx) (hsd : SignDirE w.engine)
+    (hcr : MirrorP.CurveRegF w.vamm?) (hrb : PostRateBounded w env s f tx) :
+    ∀ tag ∈ Spec.C15.check (modelStep w env s f tx),
+      tag ∈ ["partial-close-not-the-configured-fraction[within-requote-rounding]"] := by
+  by_cases hcl : ∃ v l, tx = .engine (.closePosition v l)
+  · obtain ⟨v, l, rfl⟩ := hcl
+    cases hx : applyTx w env s f (.engine (.closePosition v l)) with
+    | error e => rw [modelStep_err hx]; exact check_nil_of _ (check_close_err w env s f v l) _
+    | ok w' =>
+      rw [modelStep_ok hx]
+      refine check_close_within w w' env s f v l hx hsd hcr ?_
+      intro y hy
+      exact hrb v l w' y rfl hx hy
+  · intro tag ht
+    have h2 := C15_tags w env s f tx hsd tag ht
+    have hnil : Spec.C15.check (modelStep w env s f tx) = [] := by
+      by_cases ho : ∃ v side m l b, tx = .engine (.openPosition v side m l b)
+      · obtain ⟨v, side, m, l, b, rfl⟩ := ho
+        cases hx : applyTx w env s f (.engine (.openPosition v side m l b)) with
+        | error e => rw [modelStep_err hx]; exact check_open_err w env s f v side m l b
+        | ok w' => rw [modelStep_ok hx]; exact check_open_ok w w' env s f v side m l b hx
+      · exact check_other _ (by
+            intro v side m l b hh
+            apply ho
+            refine ⟨v, side, m, l, b, ?_⟩
+            unfold modelStep at hh
+            split at hh <;> exact hh) (by
+            intro v l hh
+            apply hcl
+            refine ⟨v, l, ?_⟩
+            unfold modelStep at hh
+            split at hh <;> exact hh)
+    rw [hnil] at ht
+    cases ht
 
 /-- **C15, clean form**: every transaction that is not a partial close -/
 theorem sat_C15 (w : World) (env : Env) (s : Nat) (f : Funds) (tx : Tx) (hsd : SignDirE w.engine)
